@@ -1141,11 +1141,13 @@ static int _yr_re_emit(
       bookmark_1 = yr_arena_get_current_offset(
           emit_context->arena, YR_RE_CODE_SECTION);
 
+      // When neither the prolog nor the repeat section was emitted (e{0,1})
+      // the split is the first instruction of the code for this node.
       FAIL_ON_ERROR(_yr_emit_split(
           emit_context,
           re_node->greedy ? RE_OPCODE_SPLIT_A : RE_OPCODE_SPLIT_B,
           0,
-          NULL,
+          emit_prolog || emit_repeat ? NULL : &instruction_ref,
           &split_offset_ref));
     }
 
@@ -1155,7 +1157,7 @@ static int _yr_re_emit(
           emit_context,
           re_node->children_head,
           emit_prolog ? flags | EMIT_DONT_SET_FORWARDS_CODE : flags,
-          emit_prolog || emit_repeat ? NULL : &instruction_ref));
+          emit_prolog || emit_repeat || emit_split ? NULL : &instruction_ref));
     }
 
     if (emit_split)
